@@ -404,8 +404,19 @@ class HistoryRun(DocRun):
                     idx = {id(t): n for n, t in enumerate(self.store)}
                     off = sum(len(t.raw_text) for t in list(self.store)[:idx[id(parent.raw_indent.first_token)]])
                     line_no = text_b[:off].count('\n')
-                    parent.indent = op[1]
-                    self.stat('hist:indent')
+                    if len(self.store) % 2 == 0:
+                        parent.indent = op[1]
+                        self.stat('hist:indent')
+                    else:
+                        # the same change through the node-level door, with the meta views already in use: the
+                        # rule reads the posting's CURRENT indent token, whichever object that is
+                        try:
+                            len(parent.meta), len(parent.raw_meta)
+                        except Exception:
+                            pass
+                        from autobean_refactor import models as models_
+                        parent.raw_indent = models_.Indent.from_value(op[1])
+                        self.stat('hist:raw_indent')
                 elif kind == 'comment':
                     side, value = op[1], op[2]
                     attr = side + '_comment'
